@@ -245,6 +245,7 @@ TEXT = {
 def run(ctx):
     api.run_vcs(ctx, vcs(), TEXT)
     from contracts import C12_vc
+    api.run_vcs(ctx, C12_vc.validate_vcs(ctx), {"C12.P.validate_iff_wellformed": "real _info_and_validate source in strict mode for a SYMBOLIC number of utterances over descriptors of the stored objects: an utterance is passed iff it meets the documented conditions (relative to the first utterance for dtype / width / reference dimensionality), otherwise ValueError; nothing is written; with and without alignments / references"})
     api.run_vcs(ctx, C12_vc.vcs(ctx), {"C12.S.soseos_inverse": "real _load_ref / _write_hyp source: reading = [sos] + transcript + [eos] (rows (symbol,-1,-1) in 2-D); writing a hypothesis with arbitrary symbols before the sos and after the eos stores exactly the bare transcript; all token, sos and eos values (0 and negatives included)"},
                 bounded="stored transcripts of length R <= %d, 1-D / 2-D / 2-D tokens_only, sos and eos each configured or None, 0 or 2 extra symbols before / after" % (2 if ctx.quick else 3))
     if C12_rt:
